@@ -316,13 +316,15 @@ static shared_ptr<VoxelsOnCartesianGrid<float>> image_for(const ProjDataInfo& pd
   gc.nx = gc.ny = 9; gc.vx = gc.vy = 4.F;
   return c03::make_image(pdi, gc);
 }
-static std::vector<Sym> groupings(const shared_ptr<ProjDataInfo>& pdi, int level) {
+static std::vector<Sym> groupings(const shared_ptr<ProjDataInfo>& pdi, int level, bool no_swap_segment = false) {
   std::vector<Sym> v;
   v.push_back({ "trivial", shared_ptr<DataSymmetriesForViewSegmentNumbers>(new TrivialDataSymmetriesForBins(pdi)) });
   auto im = image_for(*pdi);
   // switch settings (90, 180, swap segment, swap s, shift z); the grouping of viewgrams depends on the first three
   std::vector<int> masks = { 31, 30, 28, 27, 7, 3, 26, 0 };
   if (level == 0) masks = { 31, 30, 27, 0 };
+  // data with an asymmetric segment range: only groupings that do not relate segment s to -s (bit 2 off)
+  if (no_swap_segment) masks = level == 0 ? std::vector<int>{ 27, 3 } : std::vector<int>{ 27, 3, 26, 0 };
   for (int m : masks) {
     const c03::Sw sw = c03::sw_from_bits(m);
     shared_ptr<DataSymmetriesForViewSegmentNumbers> s;
@@ -540,6 +542,42 @@ static void reuse_histories(Rec& rec, vh::Rng& rng, const std::string& label, co
   }
 }
 
+// data with an asymmetric segment range (reduce_segment_range(min, max), |min| # max, with and without segment 0 at
+// an end): related viewgrams under the groupings without swap-segment and whole data sets
+static Geo seg_range(const Geo& g, int lo, int hi) {
+  Geo r; r.scanner = g.scanner; r.pdi.reset(g.pdi->clone());
+  r.pdi->reduce_segment_range(lo, hi);
+  return r;
+}
+static void asym_exercise(Rec& rec, Obj& o, const Geo& Ga, int level) {
+  emit_obj(rec.tr, o);
+  rec.set_up(o, Ga);
+  rec.efficiencies(o, Ga);
+  for (const Sym& s : groupings(Ga.pdi, level, true)) {
+    rec.all_related(o, Ga, s, level == 0 ? 10 : 40);
+    rec.whole(o, Ga, s, false);
+    rec.whole(o, Ga, s, true);
+  }
+  rec.whole(o, Ga, Sym{ "default", nullptr }, false);
+  rec.whole(o, Ga, Sym{ "default", nullptr }, true);
+}
+static void asym_histories(Rec& rec, vh::Rng& rng, const std::string& label, const Geo& G, const Geo& Gn, int level) {
+  const int M = G.pdi->get_max_segment_num();
+  if (M < 1) return;
+  std::vector<std::pair<int, int>> ranges = { { -M, M - 1 }, { -(M - 1), M }, { 0, M }, { -M, 0 } };
+  if (M == 1) ranges = { { -1, 0 }, { 0, 1 } };
+  begin_config(rec.tr, label + " asymmetric segment ranges");
+  for (const auto& r : ranges) {
+    const Geo Ga = seg_range(G, r.first, r.second);
+    { Obj o = make_pd(Gn, rng, -2, 2); asym_exercise(rec, o, Ga, level); }                       // factors on the full range
+    { Obj o = make_cal(G, rng, -2, 2, 1, 0, 0); asym_exercise(rec, o, Ga, level); }
+    if (level > 0 || r.first == -M) {
+      Obj a = make_pd(seg_range(Gn, r.first, r.second), rng, -2, 2); Obj b = make_cal(G, rng, -1, 1, 0, -1, 0);   // factors on the same range
+      Obj ch = make_chain(a, b); asym_exercise(rec, ch, Ga, level);
+    }
+  }
+}
+
 static void reuse_components(Rec& rec, vh::Rng& rng, const std::string& label, const Geo& G, const Geo& Gsmall) {
   vh::Trace& tr = rec.tr;
   begin_config(tr, label + " re-use components");
@@ -675,7 +713,18 @@ static void run_exact(vh::Trace& tr, vh::Rng& rng, int level) {
       emit_obj(tr, w); rec.set_up(w, Gother);
       rec.all_related(w, G, groupings(G.pdi, 0)[0], 3);
     }
+    if (level > 0 || sysno <= 2) {
+      // data with a reduced axial range (last axial position of segment 0 dropped)
+      begin_config(tr, label + " reduced axial range");
+      Geo Gax; Gax.scanner = G.scanner; Gax.pdi.reset(G.pdi->clone());
+      Gax.pdi->set_max_axial_pos_num(Gax.pdi->get_max_axial_pos_num(0) - 1, 0);
+      const Geo Gaxn = tof ? non_tof(Gax) : Gax;
+      { Obj o = make_pd(Gaxn, rng, -2, 2); exercise(rec, o, Gax, 0, false); }
+      { Obj o = make_cal(G, rng, -2, 2, 1, 0, 0); exercise(rec, o, Gax, 0, false); }
+      { Obj o = make_pd(Gn, rng, -1, 1); emit_obj(tr, o); rec.set_up(o, Gax); }      // factors with another axial range cannot serve
+    }
     if (level > 0 || sysno <= 2) reuse_histories(rec, rng, label, G, Gn, Gsmall);
+    if (sy.span == 1 && (level > 0 || sysno <= 2)) asym_histories(rec, rng, label, G, Gn, level);
   }
 
   // component-based normalisation (uncompressed non-TOF data, scanners with blocks)
@@ -723,15 +772,18 @@ struct Img {
 
 static void run_att(vh::Trace& tr, vh::Rng& rng, int level) {
   Rec rec(tr, rng, true);
-  struct ASys { int N, R, numTang, nxy; const char* proj; };
-  std::vector<ASys> systems = { { 16, 3, 9, 17, "rt" }, { 16, 3, 9, 17, "m1" } };
-  if (level > 0) { systems.push_back({ 16, 4, 9, 19, "m2" }); systems.push_back({ 24, 3, 11, 21, "rt" }); systems.push_back({ 8, 3, 5, 13, "m1" }); }
+  // vx, vy: transaxial voxel sizes in mm (integers); non-square voxels are legal for the ray-tracing matrix projector;
+  // the axial voxel size is half the ring spacing (2 mm), so the grids are never cubic
+  struct ASys { int N, R, numTang, nxy; const char* proj; int vx, vy; };
+  std::vector<ASys> systems = { { 16, 3, 9, 17, "rt", 4, 4 }, { 16, 3, 9, 17, "m1", 4, 4 }, { 16, 3, 9, 17, "m1", 4, 3 } };
+  if (level > 0) { systems.push_back({ 16, 4, 9, 19, "m2", 4, 4 }); systems.push_back({ 24, 3, 11, 21, "rt", 4, 4 }); systems.push_back({ 8, 3, 5, 13, "m1", 4, 4 });
+                   systems.push_back({ 16, 3, 9, 17, "m2", 3, 5 }); systems.push_back({ 16, 4, 7, 15, "m1", 5, 4 }); }
   int sysno = 0;
   for (const ASys& sy : systems) {
     const std::string label = "att" + std::to_string(++sysno);
     const Geo G = make_geo(sy.N, sy.R, sy.R - 1, sy.numTang, 0, 0, label);
     const auto& pc = dynamic_cast<const ProjDataInfoCylindricalNoArcCorr&>(*G.pdi);
-    c03::GridCfg gc; gc.nx = gc.ny = sy.nxy; gc.nz = 2 * sy.R - 1; gc.vx = gc.vy = 4.F;
+    c03::GridCfg gc; gc.nx = gc.ny = sy.nxy; gc.nz = 2 * sy.R - 1; gc.vx = (float)sy.vx; gc.vy = (float)sy.vy;
     const int half = sy.nxy / 2;
     begin_config(tr, label + " attenuation " + sy.proj);
     // the data geometry as the real classes describe it: s coordinate of every tangential position (1/256 mm)
@@ -760,10 +812,11 @@ static void run_att(vh::Trace& tr, vh::Rng& rng, int level) {
       vh::Json j; j.str("kind", "box").num("bx", bx).num("by", by).num("mu16", mu16); i.json = j.done();
       return i; };
     // mu chosen so that the ACF along the y-parallel chord (length (2 by + 1) * 4 mm) is about 2^k
-    auto mu_for = [&](int by, int k) { return (long)std::llround(k * 0.6931471805599453 * 10.0 / ((2 * by + 1) * 4.0) * 65536.0); };
-    imgs.push_back(box(half - 3, half - 2, mu_for(half - 2, 1)));
-    imgs.push_back(box(half - 2, half - 4, mu_for(half - 4, 2)));
-    if (level > 0) imgs.push_back(box(half - 4, half - 3, mu_for(half - 3, 3)));
+    // (a chord of 2 n + 1 voxels of `vox' mm)
+    auto mu_for = [&](int n, int vox, int k) { return (long)std::llround(k * 0.6931471805599453 * 10.0 / ((2 * n + 1) * (double)vox) * 65536.0); };
+    imgs.push_back(box(half - 3, half - 2, mu_for(half - 2, sy.vy, 1)));     // ACF ~ 2 along the y-parallel chords
+    imgs.push_back(box(half - 4, half - 2, mu_for(half - 4, sy.vx, 2)));     // ACF ~ 4 along the x-parallel chords
+    if (level > 0) imgs.push_back(box(half - 4, half - 3, mu_for(half - 3, sy.vy, 3)));
     { Img z; z.im = c03::make_image(*G.pdi, gc); z.im->fill(0.F); z.json = "{\"kind\":\"zero\"}"; imgs.push_back(z); }
     const int first_rand = (int)imgs.size() + 1;
     auto rnd = [&](int denom) {
